@@ -518,10 +518,9 @@ func handleZINTERSTORE(params internal.HandlerFuncParams) ([]byte, error) {
 	keyExists := params.KeysExist(params.Context, k.ReadKeys)
 	destination := k.WriteKeys[0]
 
-	// Remove the destination keys from the command before parsing it
-	cmd := slices.DeleteFunc(params.Command, func(s string) bool {
-		return s == destination
-	})
+	// Remove the destination key (the first argument) from the command before parsing it.
+	// Only that position is dropped: a source key may have the same name as the destination.
+	cmd := append([]string{params.Command[0]}, params.Command[2:]...)
 
 	keys, weights, aggregate, _, err := extractKeysWeightsAggregateWithScores(cmd)
 	if err != nil {
